@@ -5,7 +5,9 @@ import (
 	"go/constant"
 	"go/token"
 	"go/types"
+	"regexp"
 	"strings"
+	"time"
 
 	"golang.org/x/tools/go/ssa"
 )
@@ -23,7 +25,17 @@ func nilness(t Term) int {
 		return nilIs
 	case *Unknown:
 		return v.Nilness
-	case *Ptr, *Closure, *Iface, *MapT:
+	case *Ptr:
+		if v.NilUnk {
+			return nilUnknown
+		}
+		return nilNon
+	case *MapT:
+		if v.NilUnk {
+			return nilUnknown
+		}
+		return nilNon
+	case *Closure, *Iface:
 		return nilNon
 	case *Slice:
 		if v.Nil {
@@ -57,9 +69,9 @@ func (a *Analyzer) unknownOf(t types.Type, desc string, st *State) Term {
 		return s
 	case *types.Pointer:
 		o := &Obj{ID: a.id(), Desc: "*" + desc, Typ: u.Elem()}
-		return &Ptr{Obj: o}
+		return &Ptr{Obj: o, NilUnk: true}
 	case *types.Map:
-		return &MapT{Obj: &Obj{ID: a.id(), Desc: desc, Typ: t}}
+		return &MapT{Obj: &Obj{ID: a.id(), Desc: desc, Typ: t}, NilUnk: true}
 	case *types.Tuple:
 		tu := &Tuple{Elems: make([]Term, u.Len())}
 		for i := 0; i < u.Len(); i++ {
@@ -170,7 +182,7 @@ func pathField(st *types.Struct, named types.Type, i int) string {
 	if n, ok := named.(*types.Named); ok {
 		name = n.Obj().Name()
 	}
-	return fmt.Sprintf(".%s#%d", name, i)
+	return fmt.Sprintf(".%s#%s", name, st.Field(i).Name())
 }
 
 func lastElem(path string) string {
@@ -254,14 +266,22 @@ func (a *Analyzer) load(st *State, p *Ptr, t types.Type) Term {
 		v = a.zeroOf(t)
 	} else {
 		v = a.unknownOf(t, p.Obj.Desc+prettyPath(p.Path), st)
+		if a.Track[p.Obj.ID] {
+			a.taintTerm(v, map[Loc]bool{loc: true})
+			a.initTerm[loc] = v
+		} else if src := a.taint[p.Obj.ID]; len(src) > 0 {
+			a.taintTerm(v, src)
+		}
 	}
 	st.Heap[loc] = v
 	return v
 }
 
+var rePathElem = regexp.MustCompile(`\.[A-Za-z0-9_\[\],\*\. ]*#`)
+
 func prettyPath(p string) string {
-	// ".T#2" -> ".#2" (diagnostics only)
-	return p
+	// ".T#Name" -> ".Name" (diagnostics only)
+	return rePathElem.ReplaceAllString(p, ".")
 }
 
 func (a *Analyzer) store(st *State, p *Ptr, v Term, t types.Type) {
@@ -281,6 +301,9 @@ func (a *Analyzer) store(st *State, p *Ptr, v Term, t types.Type) {
 	}
 	loc := Loc{p.Obj.ID, p.Path}
 	a.locTypes[loc] = t
+	if a.Track[p.Obj.ID] {
+		a.Stored[loc] = true
+	}
 	// sub-locations and enclosing cached values
 	st.killPrefix(p.Obj.ID, p.Path+".")
 	st.killPrefix(p.Obj.ID, p.Path+"[")
@@ -315,13 +338,14 @@ func (a *Analyzer) execBlock(fr *frame, b *ssa.BasicBlock, st *State) (flows []f
 			continue
 		}
 		a.steps++
-		if a.steps > a.MaxSteps {
+		if a.steps > a.MaxSteps || (a.steps&1023 == 0 && !a.Deadline.IsZero() && time.Now().After(a.Deadline)) {
 			panic(errBudget)
 		}
 		switch x := ins.(type) {
 		case *ssa.If:
 			for _, s := range states {
 				cond := a.val(s, x.Cond)
+				a.noteBranch(fr, x, cond)
 				bt, bf := a.branch(s, cond)
 				if bt != nil {
 					bt.note(fmt.Sprintf("%s:T", a.P.RelPos(condPos(x))))
@@ -356,6 +380,12 @@ func (a *Analyzer) execBlock(fr *frame, b *ssa.BasicBlock, st *State) (flows []f
 			}
 			return
 		case *ssa.Panic:
+			if strings.HasPrefix(b.Comment, "rangefunc.") || b.Comment == "yield-invalid" {
+				// compiler-generated range-over-func protocol check (iterator misuse); exempt,
+				// listed as an assumption: repo iterators call yield as the language requires
+				a.RangeFuncExempt++
+				return
+			}
 			for _, s := range states {
 				s := s
 				a.obl("E1.panic", fr.fn, ins, "", false, func() string { return "explicit panic reachable\n" + s.Describe() })
@@ -518,7 +548,11 @@ func (a *Analyzer) step(fr *frame, ins ssa.Instruction, st *State) []*State {
 	case *ssa.UnOp:
 		return a.stepUnOp(fr, x, st)
 	case *ssa.BinOp:
-		st.Env[x] = a.binop(fr, x, st)
+		r := a.binop(fr, x, st)
+		if b, ok := r.(*Bool); ok && b.Kind == BUnknown {
+			a.propagate(r, a.val(st, x.X), a.val(st, x.Y))
+		}
+		st.Env[x] = r
 		return one
 	case *ssa.Store:
 		p, ok := a.objOfPtr(st, a.val(st, x.Addr), ins, fr)
@@ -1095,7 +1129,6 @@ func termDesc(t Term) string {
 type baseRef struct{ B *Base }
 
 func (b *baseRef) TKey() string { return fmt.Sprintf("b%d", b.B.ID) }
-
 
 // sentinelOK: an error-typed package variable that is assigned exactly once, in its
 // package initialiser, from errors.New / fmt.Errorf, is never nil.
